@@ -70,7 +70,13 @@ package priority
 //@   effect gPendSet := gPendSet || opened
 //@   effect gPendP := ite(opened, p, gPendP)
 
+// The 1ns ticker bounds the wait on a silent unbuffered input (and nothing else may wait on it
+// after it was stopped): it is stopped only when the goroutine ends.
+//@ ghost var gIntStopped bool [C06 C07]
+//@ event call time.(*Ticker).Stop (t)
+//@   effect gIntStopped := true
 //@ event recv dsc.interrupter.C ()
+//@   requires [C06 C07] the-interrupt-that-bounds-the-wait-is-armed: !gIntStopped
 
 // C05 is stated for saturated, buffered inputs: in io the default case (no data) cannot be taken.
 //@ event default select in (*Discipline).io
@@ -359,6 +365,7 @@ package priority
 //@     invariant [C02 C07] DRAINED(dsc)
 
 //@ func (*Discipline).iou
+//@   requires [C06 C07] interrupter-armed: !gIntStopped
 //@   requires [C02] SEQ2(dsc)
 //@   ensures [C02] SEQ2(dsc)
 //@   requires [*] WF(dsc)
@@ -386,6 +393,7 @@ package priority
 //@     invariant [C02 C07] DRAINED(dsc)
 
 //@ func (*Discipline).prioritize
+//@   requires [C06 C07] interrupter-armed: !gIntStopped
 //@   requires [C02] SEQ2(dsc)
 //@   ensures [C02] SEQ2(dsc)
 //@   requires [*] WF(dsc)
@@ -457,6 +465,7 @@ package priority
 //@     invariant [*] WF(dsc)
 
 //@ func (*Discipline).base
+//@   requires [C06 C07] interrupter-armed: !gIntStopped
 //@   requires [C02] SEQ2(dsc)
 //@   ensures [C02] SEQ2(dsc)
 //@   requires [*] WF(dsc)
@@ -474,6 +483,7 @@ package priority
 //@   ensures [C02 C07 C15] result1 != nil ==> gDivErr
 
 //@ func (*Discipline).loop
+//@   requires [C06 C07] interrupter-armed: !gIntStopped
 //@   may-diverge
 //@   requires [C02] SEQ2(dsc)
 //@   ensures [C02] SEQ2(dsc)
@@ -497,6 +507,7 @@ package priority
 //@     invariant [C02 C07] DRAINED(dsc)
 
 //@ func (*Discipline).main
+//@   requires [C06 C07] interrupter-armed: !gIntStopped
 //@   may-diverge
 //@   requires [C15] started-with-every-configured-priority-listed: forall k :: in(gPset, k) ==> in(pset(dsc.priorities, len(dsc.priorities)), k)
 //@   requires [C15] started-with-a-share-for-every-configured-priority: forall k :: in(gPset, k) ==> dsc.strategic[k] >= 1
@@ -506,7 +517,7 @@ package priority
 //@   requires [C02 C07 C15] !gDivErr
 //@   requires [C02 C07 C15] !gOutClosed
 //@   requires [C02 C07] DRAINED(dsc)
-//@   modifies content(dsc.tactic), content(dsc.actual), content(dsc.inputs), dsc.uncrowded, anyelems(dsc.uncrowded), dsc.useful, gDivErr, gInfl, gInflP, gClock, gClosedIn, gOutClosed, gIn, gInN, gOutNP, gPendSet, gPendP
+//@   modifies content(dsc.tactic), content(dsc.actual), content(dsc.inputs), dsc.uncrowded, anyelems(dsc.uncrowded), dsc.useful, gDivErr, gInfl, gInflP, gClock, gClosedIn, gOutClosed, gIn, gInN, gOutNP, gPendSet, gPendP, gIntStopped
 
 //@ func Opts.isValid
 //@   ensures [*] (result == nil) <==> (opts.Divider != nil && opts.HandlersQuantity != 0 && len(opts.Inputs) != 0)
@@ -548,7 +559,7 @@ package priority
 // configuration. The feedback/output capacities are sizes the runtime can allocate.
 //@ func New
 //@   requires [C05] saturation-is-stated-for-buffered-inputs: forall k :: dom(opts.Inputs, k) ==> cap(opts.Inputs[k]) != 0
-//@   requires [*] ghost-initial-state: !gPendSet && (forall k :: gInN[k] == 0 && gOutNP[k] == 0) && gInfl == 0 && (forall k :: gInflP[k] == 0) && !gDivErr && !gOutClosed && (forall k :: !in(gClosedIn, k)) && gPset == domset(opts.Inputs) && gH == opts.HandlersQuantity
+//@   requires [*] ghost-initial-state: !gIntStopped && !gPendSet && (forall k :: gInN[k] == 0 && gOutNP[k] == 0) && gInfl == 0 && (forall k :: gInflP[k] == 0) && !gDivErr && !gOutClosed && (forall k :: !in(gClosedIn, k)) && gPset == domset(opts.Inputs) && gH == opts.HandlersQuantity
 //@   modifies gDivErr, gPerm, gInv
 //@   ensures [*] result1 == nil ==> result0 != nil
 //@   ensures [C15] creation-fault-is-reported: gDivErr ==> result1 == ErrDividerBad
